@@ -14,12 +14,16 @@ single (fault enumeration, in-process, no fork)
       mirror   LocalArchive._downloadPackage(..., caches=[B], ws) from archive A    (Tee/MirrorWriter into cache B),
                with a generated damage of A's artifact (truncation, bit flip, workspace that cannot be created)
                as "injected extraction failure"
-    After one reference run, for EVERY mutating operation index k of the recorded trace:
+    After a reference run, for EVERY mutating operation index k of the recorded trace:
       kill before k / kill after k / kill in the middle of write k (half of the data written),
       I/O error (EIO|ENOSPC|EACCES, generated; optionally sticky for all later writes) raised instead of k,
     and for every operation index j (probes included) "a competing uploader publishes payload X under the same
     name just before j" - alone, and combined with a generated choice of later kill/error points.  That is the
     deterministic form of the lost race: the competitor appears after the exists-check of the upload under test.
+    (Two reference traces per case: one with the generated number of pre-existing xx/yy directory levels, whose
+    prefix up to the creation of the temporary file is enumerated, and one with all levels present for the
+    rest - rmdir costs > 1 ms on this file system, so the archive skeleton is re-used where the directories do
+    not matter.  Harness-made artifacts are built with a frozen clock so that a case replays byte-identically.)
 
     Kill emulation WITHOUT fork (fork costs ~0.2 s in this VM): from operation k on, every wrapped primitive
     (file write/close included) does nothing and raises the private BaseException `Killed`.  Bob's
@@ -35,10 +39,14 @@ sched (harness-owned schedules, real forked processes)
     processes (exists? -> open -> read in chunks -> extract + validate), optionally a mirroring downloader
     (archive A -> cache B == the archive the uploaders use).  Every child reports each wrapped operation over a
     pipe and blocks until the parent grants it; the parent grants according to a generated list of integers
-    (index modulo the currently blocked children), so the interleaving is a value that replays.  Optional fault
-    per uploader: real os._exit(137) before/after operation k, or OSError at k.  After EVERY granted step the
-    parent itself stats the artifact name (inode, size, mtime) and validates it when it (dis)appears or
-    changes, in addition to the reader processes' observations.
+    (used cyclically; index modulo the currently blocked children, uploaders weighing twice a reader; generated
+    start delays produce late comers that find the artifact present), so the interleaving is a value that
+    replays.  The 1..4 byte writes of the gzip header/trailer are not schedule points of their own.  Optional
+    fault per uploader: real os._exit(137) before/after/in the middle of its k-th mutating operation, or OSError
+    at k.  After EVERY granted step the parent itself stats the artifact name (inode, size, mtime) and validates
+    it when it (dis)appears or changes, in addition to the reader processes' observations.  The worker
+    processes are forked once per shard and re-used for the next schedule (a killed one is forked again): a
+    fork costs ~0.2 s here, a schedule ~50 steps of ~1 ms.
 
 Oracle (all layers): the artifact name `<archive>/xx/yy/<rest>-1.tgz` (written out independently of
 LocalArchive._getPath) is absent or a complete valid artifact - downloaded with LocalArchive._downloadPackage
@@ -46,9 +54,17 @@ into a scratch directory; canonical tree (vlib.treecanon) and audit bytes equal 
 payload X has been seen no later observation shows another one and inode/size/mtime stay; a pre-existing /
 competitor artifact is byte- and inode-identical afterwards; an upload that returned "ok" or "skipped (...
 exists)" leaves the name present; an upload that failed (BuildError, error tuple of a "nofail" archive,
-or an escaped exception) with no competitor leaves it absent; only killed runs may leave a temporary file.
+or an escaped exception) with no competitor leaves it absent; only killed runs may leave a temporary file (or a run whose injected error
+hit the unlink of that very file).
 Meta data files may be overwritten but hold, at every point, the complete old or the complete new content
-(absent only if absent before).  A cache artifact is absent when the mirroring download failed.
+(absent only if absent before).  A cache artifact is absent when the mirroring download failed and otherwise a
+byte copy of the (possibly damaged, yet accepted) source artifact.
+
+Findings on the unchanged tree (matchers in FINDINGS, canonical cases in corpus/C09):
+  tempfile-left:{close,chmod,replace}  LocalArchiveUploader.__exit__ leaves the temporary file in the archive
+      for ever when close()/chmod()/replace() raise (e.g. ENOSPC reported at close) - a failed, NOT killed upload;
+  failed-but-present:unlink  when unlink(tmp) fails after link() the upload is reported as failed although the
+      artifact is published.  (A temporary file that stays because its own unlink failed is not demanded away.)
 
 Deviation from DESIGN.md: u <= 3 (not 4); the fault enumeration is done in-process with the emulated kill
 described above instead of forked children (real kills are used in the sched layer); a failed upload that
@@ -85,7 +101,7 @@ ASSUMPTIONS = ["kill emulation is faithful for code that mutates the archive thr
                "crash = process death (SIGKILL); power loss / unsynced data is not part of C09",
                "I/O errors are injected instead of the operation (the operation has no effect)",
                "runs as root on a local file system with hard links"]
-TIME_BUDGET = {"quick": 200, "thorough": 1500}
+TIME_BUDGET = {"quick": 180, "thorough": 1500}
 BATCH = 8
 NONTRIVIAL_FLOOR = 50
 
@@ -781,7 +797,7 @@ class Single:
                          (what, rel, len(data), "absent" if not had_before else "%d bytes" % len(res["pre"]), len(self.new)), case)
             if not present and (had_before or comp):
                 ctx.fail("meta-lost:" + at, "%s: %s existed before and is gone" % (what, rel), case)
-            if res["outcome"] == "ok" and data != self.new:
+            if res["outcome"] == "ok" and data != self.new and not comp:
                 ctx.fail("ok-but-not-new", "%s: upload reported ok but %s does not hold the new content" % (what, rel), case)
             if present:
                 got = A_download_local(res["arch"], self.bid, self.suffix)
@@ -820,9 +836,10 @@ class Single:
                          (what, self.damage, rel), case)
         if failed and "error" not in res["fired"] and self.kind == "package":
             ctx.fail("upload-fails-without-fault", "%s" % what, case)
-        # 3. no temporary files unless killed
+        # 3. no temporary files unless killed (or the injected error hit the very unlink of the temporary file:
+        #    then nobody can remove it)
         left = [x for x in res["files"] if x != rel]
-        if left and not killed:
+        if left and not killed and not (at == "unlink" and "error" in res["fired"]):
             ctx.fail("tempfile-left:" + at, "%s: files left in the archive: %r (operations: %s)" %
                      (what, left, " ".join(o[0] for o in ops)), case)
         # 4. independent of the wrappers: the name was never written in place / deleted / created twice
@@ -909,7 +926,7 @@ def enumerate_single(ctx, case):
             ctx.record(jhash([case["ops"], case["spec"], case["kind"], case.get("meta"), case.get("mirror"), plan]), nontriv, lab,
                        {"layer": "single", "kind": env.kind, "spec": case["spec"], "trace": [o[0] for o in ops],
                         "plan": plan_str(plan, ops), "outcome": res["outcome"], "name_present": present}
-                       if nontriv and f and f[0] == "kill" and ops[f[1]][0] in ("link", "close", "replace") else None)
+                       if nontriv and not ctx.samples and f and f[0] == "kill" and ops[f[1]][0] in ("link", "close", "replace") else None)
     finally:
         env.close()
 
@@ -1309,7 +1326,7 @@ def _run_sched(ctx, case):
     left = [x for x in (list_files(arch) if os.path.isdir(arch) else []) if x != rel]
     for x in left:
         owner = [i for i in range(nwork) if os.path.basename(x) in done[i].get("tmp", [])]
-        if owner:            # a worker that was not killed left its temporary file behind
+        if owner and fault_kind(owner[0]) != "unlink":     # a worker that was not killed left its temporary file behind
             ctx.fail("tempfile-left:" + fault_kind(owner[0]), "%s left in the archive by worker %d (%s: %s); %s" %
                      (x, owner[0], done[owner[0]]["outcome"], done[owner[0]]["msg"], what), case)
     if len([x for x in left if not any(os.path.basename(x) in done[i].get("tmp", []) for i in range(nwork))]) > len(killed):
@@ -1386,7 +1403,7 @@ sched_case = st.fixed_dictionaries({
             st.just(["none"]), st.just(["none"]), st.tuples(st.just("trunc"), st.integers(0, 10**6)).map(list),
             st.tuples(st.just("flip"), st.integers(0, 10**6), st.integers(0, 7)).map(list), st.just(["nows"]))})),
     "schedule": st.lists(st.integers(0, 11), min_size=20, max_size=120),
-    "start": st.lists(st.sampled_from([0, 0, 0, 5, 15, 25, 40, 60]), min_size=4, max_size=4),
+    "start": st.lists(st.sampled_from([0, 0, 0, 0, 0, 0, 3, 8, 15, 30, 60]), min_size=4, max_size=4),
 })
 
 
@@ -1421,7 +1438,7 @@ def replay(ctx, case):
 
 
 def _leak(signature, case, detail):
-    return signature.startswith("tempfile-left:") and signature.split(":")[1] in ("close", "chmod", "replace", "unlink")
+    return signature.startswith("tempfile-left:") and signature.split(":")[1] in ("close", "chmod", "replace")
 
 def _unlink(signature, case, detail):
     return signature == "failed-but-present:unlink"
